@@ -21,6 +21,10 @@ type Ctx struct {
 	la    *locks.Analysis
 	goFns []*ssa.Function
 	oe    *own.Eng
+	phiSeen  map[*ssa.Phi]int
+	phiSeen2 map[*ssa.Phi]int
+	phiSeen3 map[*ssa.Phi]int
+	freshListFn map[*ssa.Function]int
 }
 
 func obl(rule, fn, construct, pos, verdict, detail string, witness []string) report.Obl {
